@@ -73,6 +73,8 @@ def extract(ctx):
     t = rw.sub(t, r'\bresult->isolation\b', 'TASK_ISOLATION(result)', 1, 1, name='accessor macro')
     t = rw.sub(t, r'\bresult->is_proxy\b', 'TASK_IS_PROXY(result)', 1, 1, name='accessor macro')
     t = rw.sub(t, r'\btp->slot\b', 'TASK_SLOT(tp)', 1, 1, name='accessor macro')
+    t2 = rw.number_sites(t, 'gt', by_kind=True)
+    common.write(ctx, 'get_task_the.inc', 'task* slot_get_task_impl(struct aslot* self, size_t T, execution_data_ext* ed, bool* tasks_omitted, isolation_type isolation);\n' + t2 + '\n')
     common.write(ctx, 'get_task_lc.inc', 'task* slot_get_task_impl(struct aslot* self, size_t T, execution_data_ext* ed, bool* tasks_omitted, isolation_type isolation);\n' + t + '\n')
     # task_proxy::extract_task<from_bit>
     s = slice_block(MB, r'inline task\* extract_task \(\)')
@@ -189,6 +191,7 @@ def build(ctx):
          for n, h, lp in (('acquire_task_pool', 'acquire', True), ('release_task_pool', 'release', False), ('lock_task_pool', 'lock', True),
                           ('unlock_task_pool', 'unlock', False), ('leave_task_pool', 'leave', False), ('publish_task_pool', 'publish', False))] + [
         Job('pool.get_task.any_size', C, 'h_get_task_lc', route='LC', loops=True, nloops=1, defines=['GTLC'], target='arena_slot::get_task + get_task_impl + reset_task_pool_and_leave (owner side, any pool size)', source=ASC, timeout=900),
+        Job('the.owner', C, 'h_the_owner', route='RG', loops=True, nloops=1, defines=['THE_OWNER'], target='arena_slot::get_task (+ get_task_impl, reset_task_pool_and_leave) against any number of thieves: arbitration for one arbitrary slot', source=ASC, timeout=900),
         Job('pool.steal_task', C, 'h_steal', route='LC', loops=True, nloops=1, defines=['STEAL'], target='arena_slot::steal_task (thief side, any pool size)', source=ASC, timeout=600),
         Job('proxy.extract', C, 'h_extract', route='RG', defines=['PROXY'], target='task_proxy::extract_task<pool_bit|mailbox_bit> (two-sided claim)', source=MB),
     ]
